@@ -19,10 +19,27 @@ import sys
 import time
 
 ROOT = '/verif'
-REPO = '/repo'
-COQ = os.path.join(ROOT, 'coq')
-BUILD = os.path.join(ROOT, 'build')
+# Private mode (bin/mutate-test): a check can be pointed at a scratch copy of the repository, of the Coq tree
+# (Gen/*.v are regenerated from the tree under test) and at private build/evidence/replay directories, so that
+# several checks can run against differently patched trees at the same time without touching /repo or /verif.
+REPO = os.environ.get('VERIF_REPO', '/repo')
+COQ = os.environ.get('VERIF_COQ', os.path.join(ROOT, 'coq'))
+BUILD = os.environ.get('VERIF_BUILD', os.path.join(ROOT, 'build'))
+EVIDENCE = os.environ.get('VERIF_EVIDENCE', os.path.join(ROOT, 'evidence'))
+REPLAYS = os.environ.get('VERIF_REPLAYS', os.path.join(ROOT, 'replays'))
 HARNESS = os.path.join(ROOT, 'harness')
+PRIVATE = REPO != '/repo'
+
+
+def alt_modfile():
+    """go.mod whose replace directive points at the repository under test (private mode only)"""
+    os.makedirs(BUILD, exist_ok=True)
+    p = os.path.join(BUILD, 'go.alt.mod')
+    src = open(os.path.join(HARNESS, 'go.mod')).read().replace('=> /repo/codec', '=> %s/codec' % REPO)
+    if not os.path.exists(p) or open(p).read() != src:
+        open(p, 'w').write(src)
+    shutil.copyfile(os.path.join(REPO, 'codec', 'go.sum'), os.path.join(BUILD, 'go.alt.sum'))
+    return p
 
 GOENV = {
     'GOFLAGS': '-mod=mod', 'GOPROXY': 'off', 'GOSUMDB': 'off', 'GOTOOLCHAIN': 'local',
@@ -92,6 +109,8 @@ class Lock:
 
 
 def sh(cmd, timeout=600, cwd=None, env=None, quiet=True):
+    if PRIVATE and isinstance(cmd, list) and len(cmd) > 1 and cmd[0] == 'go' and cmd[1] in ('build', 'run', 'test', 'vet'):
+        cmd = cmd[:2] + ['-modfile=' + alt_modfile()] + cmd[2:]
     e = dict(os.environ)
     e.update(GOENV)
     if env:
@@ -142,7 +161,7 @@ class Check:
         self.assumptions = []
         self.bdir = os.path.join(BUILD, pid.lower())
         os.makedirs(self.bdir, exist_ok=True)
-        self.rdir = os.path.join(ROOT, 'replays', pid)
+        self.rdir = os.path.join(REPLAYS, pid)
         self.known = load_known(pid)
         self.nreplay = 0
 
@@ -267,7 +286,8 @@ class Check:
     # ---------- Go harness ----------
     def go_build(self, cmd, tags='verif', out=None, timeout=600):
         out = out or os.path.join(self.bdir, cmd + ('' if tags == 'verif' else '.' + re.sub(r'[^a-z]', '', tags)))
-        shutil.copyfile(os.path.join(REPO, 'codec', 'go.sum'), os.path.join(HARNESS, 'go.sum'))
+        if not PRIVATE:
+            shutil.copyfile(os.path.join(REPO, 'codec', 'go.sum'), os.path.join(HARNESS, 'go.sum'))
         rc, o = sh(['go', 'build', '-tags', tags, '-o', out, './cmd/' + cmd], cwd=HARNESS, timeout=timeout)
         if rc != 0:
             self.log('harness build failed (%s, tags %s):\n%s' % (cmd, tags, o[-3000:]))
@@ -425,8 +445,8 @@ class Check:
         }
         if not self.cov['samples']:
             self.cov['samples'] = ['(no samples: the run stopped before the harness produced cases)']
-        os.makedirs(os.path.join(ROOT, 'evidence'), exist_ok=True)
-        with open(os.path.join(ROOT, 'evidence', self.pid + '.json'), 'w') as f:
+        os.makedirs(EVIDENCE, exist_ok=True)
+        with open(os.path.join(EVIDENCE, self.pid + '.json'), 'w') as f:
             json.dump(ev, f, indent=1, sort_keys=True, default=str)
         self.log('obligations %d discharged %d evaluations %d distinct %d model-cases %d violations %d known %d wall %.1fs' % (
             self.cov['obligations'], self.cov['discharged'], self.cov['evaluations'], self.cov['distinct_nontrivial'],
